@@ -224,8 +224,12 @@ class MacroSourceMapping(SourceMapping):
 
     @classmethod
     def deserialize(cls, data_list: list[Any]) -> MacroSourceMapping:
+        called_in = data_list[4]
+        if called_in is not None:
+            # JSON has no tuples
+            called_in = (called_in[0], called_in[1], called_in[2])
         return MacroSourceMapping(
-            data_list[0], data_list[1], data_list[2], data_list[3], data_list[4], data_list[5], data_list[6]
+            data_list[0], data_list[1], data_list[2], data_list[3], called_in, data_list[5], data_list[6]
         )
 
 
